@@ -28,9 +28,11 @@ pub enum Leaf {
     Removed,
     RemovedReused,
     RemovedReadded,
+    /// removed, the leaf taken by another identity, and the sender back on another leaf
+    RemovedReusedReadded,
 }
 
-const LEAVES: [Leaf; 6] = [Leaf::Untouched, Leaf::HpkeRekey, Leaf::SigRekey, Leaf::Removed, Leaf::RemovedReused, Leaf::RemovedReadded];
+const LEAVES: [Leaf; 7] = [Leaf::Untouched, Leaf::HpkeRekey, Leaf::SigRekey, Leaf::Removed, Leaf::RemovedReused, Leaf::RemovedReadded, Leaf::RemovedReusedReadded];
 
 #[derive(Clone, Debug)]
 pub struct Case {
@@ -121,6 +123,7 @@ fn run_case(c: &Case, ctx: &mut Ctx) {
                     Leaf::Removed => vec!["remove-s"],
                     Leaf::RemovedReused => vec!["remove-s", "add-d"],
                     Leaf::RemovedReadded => vec!["remove-s", "add-s"],
+                    Leaf::RemovedReusedReadded => vec!["remove-s", "add-d", "add-s"],
                 };
             }
             if i == c.commits {
@@ -265,6 +268,7 @@ pub fn cases(tier: &str) -> Vec<Case> {
                         let need = match leaf {
                             Leaf::Untouched => 0,
                             Leaf::HpkeRekey | Leaf::SigRekey | Leaf::Removed => 1,
+                            Leaf::RemovedReusedReadded => 3,
                             _ => 2,
                         };
                         if commits - sent_after < need {
